@@ -34,15 +34,29 @@ Definition frac_json (v : gval) : bool :=
 Definition has_frac_json (c : ecase) : bool :=
   existsb (fun da => existsb (fun cj : conj => existsb (fun fe => existsb (fun e => frac_json (e_val e)) (snd fe)) cj) (d_conjs (fst da))) (k_docs c).
 
+(* a float32 whose integer part needs more than 24 bits: written with its shortest float32 digits, read back as
+   another float64 (Model/Json.v widen32; JsonProof.N1_float32) *)
+Definition big_f32 (v : gval) : bool :=
+  let b := fun x => match x with VFloat true f => 16777216 <=? Z.abs (f_ip f) | _ => false end in
+  match v with VSlice _ _ vs | VList _ vs | VArr _ vs => existsb b vs | _ => b v end.
+(* a nil typed slice / nil []interface{} as an expression value: written as null, read back as the nil interface,
+   which the default parsers and the pattern container refuse (JsonProof.N2_nil_slice) *)
+Definition nil_slice_val (v : gval) : bool :=
+  match v with VSlice _ true _ | VList true _ => true | _ => false end.
+Definition has_val (p : gval -> bool) (c : ecase) : bool :=
+  existsb (fun da => existsb (fun cj : conj => existsb (fun fe => existsb (fun e => p (e_val e)) (snd fe)) cj) (d_conjs (fst da))) (k_docs c).
+
 (* signatures: 41 a decoded document is accepted/rejected differently, 42 answers differ,
    43 answers differ and the document holds an integer beyond 2^53 (float64 precision),
-   44 answers differ and the document holds a json.Number with a fraction, an exponent or the text "-0" *)
+   44 answers differ and the document holds a json.Number with a fraction, an exponent or the text "-0",
+   45 ... a float32 of magnitude >= 2^24,  46 ... a nil slice as an expression value *)
 Definition spec_verdict_j (j : jcase) : bool * bool * N :=
   let '(o, d) := j in
   let '(ok_o, dom_o, sig_o) := SpecE2E.spec_verdict o in
   if negb ok_o then (false, dom_o, sig_o) else
-  let sigd := if has_big_int o then 43%N else if has_frac_json o then 44%N else 42%N in
-  if negb (eqb_list iadd_eqb (map snd (k_docs o)) (map snd (k_docs d))) then (false, dom_o, if has_big_int o then 43%N else 41%N)
+  let sigd := if has_big_int o then 43%N else if has_frac_json o then 44%N else if has_val big_f32 o then 45%N
+              else if has_val nil_slice_val o then 46%N else 42%N in
+  if negb (eqb_list iadd_eqb (map snd (k_docs o)) (map snd (k_docs d))) then (false, dom_o, if has_big_int o then 43%N else if has_val nil_slice_val o then 46%N else 41%N)
   else if negb (eqb_list ires_same (map snd (k_queries o)) (map snd (k_queries d))) then (false, dom_o, sigd)
   else (true, dom_o, 0%N).
 
